@@ -62,8 +62,11 @@ class C16(Prop):
                 if t in seen:
                     continue
                 seen.add(t)
-                yield {"gen": f"noclobber/{cfg['fmt']}", "cfg": cfg, "opens": base["opens"], "pre": [names[i] for i in sub],
-                       "noclobber": True, "other": rng.random() < 0.3}
+                pre = [names[i] for i in sub]
+                x = rng.random()
+                empty = pre if x < 0.15 else ([rng.choice(pre)] if x < 0.35 else [])
+                yield {"gen": f"noclobber/{cfg['fmt']}" + ("/empty-files" if empty else ""), "cfg": cfg, "opens": base["opens"],
+                       "pre": pre, "empty": empty, "noclobber": True, "other": rng.random() < 0.3}
             for _ in range(3):
                 k = rng.randint(0, n)
                 yield {"gen": f"clobber/{cfg['fmt']}", "cfg": cfg, "opens": base["opens"],
@@ -108,7 +111,8 @@ class C16(Prop):
         fa, agp = C.write_inputs(ind, cfg["multi"])
         pre = {}
         for name in case["pre"]:
-            data = f"PRE-EXISTING {name}\n".encode()
+            # some pre-existing files are empty (a zero-length leftover is still an existing file)
+            data = b"" if name in case.get("empty", []) else f"PRE-EXISTING {name}\n".encode()
             (out / name).write_bytes(data)
             pre[name] = C.digest(data)
         if case.get("other"):
